@@ -31,10 +31,10 @@ PROPS = {
     "C03": {"level": "exploration", "arms": [A("par-free", 40000, 2500000), A("par-free-wide", 8000, 400000), A("par-preempt-sweep", 600, 40000)],
             "probes": ["probe:>=2_workers_compiling_at_once", "probe:worker_parked_and_woken", "probe:multi_wake", "probe:pruned_by_cache_at_pop", "probe:read_threshold_written_by_peer", "fringe_clears", "fault:preemptions"],
             "rule": RULE_SOLVER},
-    "C04": {"level": "exploration", "arms": [A("par-free", 30000, 1500000), A("par-cutoff", 40000, 2000000), A("par-flaky", 20000, 800000), A("par-threads", 20000, 800000), A("par-threads-cutoff", 20000, 800000), A("par-preempt-sweep-cutoff", 600, 30000), A("ext:miri-solver", 0, 320, reps=6)],
+    "C04": {"level": "exploration", "arms": [A("par-free", 30000, 1500000), A("par-cutoff", 40000, 2000000), A("par-flaky", 20000, 800000), A("par-threads", 20000, 800000), A("par-threads-cutoff", 20000, 800000), A("par-preempt-sweep-cutoff", 600, 30000), A("par-sweep", 1000, 50000), A("ext:miri-solver", 0, 320, reps=6)],
             "probes": ["probe:multi_wake", "probe:abort_with_peer_parked", "probe:abort_with_peer_processing", "fault:thread_count_increase", "fault:cutoff_fired", "probe:worker_parked_and_woken"],
             "rule": RULE_SOLVER + "; violation classes: deadlock (no enabled worker while one is parked), step-bound, worker panic, premature completion"},
-    "C05": {"level": "exploration", "arms": [A("par-cutoff", 60000, 3000000), A("par-preempt-sweep-cutoff", 600, 30000), A("par-threads-cutoff", 10000, 400000), A("seq-sweep", 6000, 250000), A("seq-sweep-nodup", 6000, 300000)],
+    "C05": {"level": "exploration", "arms": [A("par-cutoff", 60000, 3000000), A("par-preempt-sweep-cutoff", 600, 30000), A("par-sweep", 1500, 60000), A("par-threads-cutoff", 10000, 400000), A("seq-sweep", 6000, 250000), A("seq-sweep-nodup", 6000, 300000)],
             "probes": ["fault:cutoff_fired", "probe:abort_with_peer_parked", "probe:abort_with_peer_processing", "probe:ub_strictly_decreased_between_consecutive_k", "sweep_executions"],
             "rule": RULE_SOLVER + "; sequential arm: for each sampled (instance, configuration) EVERY cutoff index k in 1..K+1 is executed (K = polls of the uninterrupted run); each (instance, configuration, k) with k <= K counts as one distinct non-trivial case"},
     "C06": {"level": "fault_enumeration", "arms": [A("dd-history", 30000, 1200000), A("dd-history-narrow", 30000, 1200000), A("dd-history-depthfree", 10000, 400000), A("dd-history-longarc", 10000, 400000)],
